@@ -48,6 +48,21 @@ CHECKS = {
  "C14": ("property-based testing (proptest): metamorphic repetition — same text on the runner thread, on freshly spawned threads (fresh RandomState keys) and in fresh child processes",
          "exploration over texts of every outcome class, biased to large grammars; >= 8 hash-key sets per text in-process, 3 child processes on a sample; hash keys cannot be pinned, so this samples the seed space",
          "trusted base: std RandomState draws fresh keys per thread/process; Debug rendering of errors as the structural comparison", "DESIGN.md §4 C14, §9", "E1 + E4 child processes (harness/src/props/total.rs)"),
+ "C01": ("property-based testing (proptest) with compiled artefacts: generated grammars -> emitted parser compiled by rustc and run on generated token strings; differential oracle = Earley membership cross-checked with a reference canonical-LR(1) driver; metamorphic payload change",
+         "exploration over hundreds of compiled parsers x hundreds of token strings each (all strings up to a length bound, random derivations, mutants, prefixes); acceptance, panics, crashes (2 GiB limit) and doubly confirmed non-termination are judged",
+         "trusted base: rustc 1.95, the generated client, the reference Earley/LR(1) on the CFG read off the declarations (mutually cross-checked per input)", "DESIGN.md §4 C01, Appendix E", E2),
+ "C02": ("property-based testing (proptest) with compiled artefacts: the parse result is destructured exhaustively by a generated client and printed; oracle = the reference derivation tree (unique for LALR(1) grammars) rendered the same way",
+         "exploration over compiled parsers with every fieldset pattern and position-carrying payloads; trees compared node by node incl. payload positions under two payload offsets",
+         "trusted base: rustc, the generated printer client, the reference LR(1) driver's tree (checked to cover the input left to right)", "DESIGN.md §4 C02, Appendix E", E2),
+ "C03": ("property-based testing (proptest) with compiled artefacts: non-sentences fed through a lazy counting iterator; oracle = viable-prefix index (Earley) / canonical LR(1) stop index, token identity by position payload, pull count",
+         "exploration over compiled parsers x mostly-rejected strings; the returned token object, Err(None) vs Err(Some), and the exact number of items pulled are judged",
+         "trusted base: rustc, the generated client, Earley and canonical LR(1) references (must agree when every nonterminal is productive)", "DESIGN.md §4 C03, Appendix E", E2),
+ "C05": ("property-based testing (proptest) with rustc as oracle: accepted grammars under adversarial identifier assignments (helper names, template locals, letter-less names) and derive-less payload types; the emitted module must type-check with default lint levels",
+         "exploration over ~1000 (quick) / 16000 (thorough) renamed grammars; two known findings are excluded by construction and probed separately (KNOWN-FINDING lines)",
+         "trusted base: rustc 1.95 as the judge of 'compiles'; the precondition list (keywords, 2021 prelude names) in harness/src/props/hygiene.rs", "DESIGN.md §4 C05", E2),
+ "C06": ("property-based testing (proptest) with rustc as oracle: a generated client constructs and destructures every emitted type in the declared shape with ascribed types and takes parse at the documented signature; plus a text-order comparison of the emitted definitions",
+         "exploration over renamed grammars with all fieldset patterns and payload types nested to depth 4; rustc decides shape/type/visibility/signature, the text reader decides declaration order and unit-like collapse",
+         "trusted base: rustc 1.95; line-oriented reader of the emitted type region", "DESIGN.md §4 C06", E2),
 }
 
 NOT_YET = {}
@@ -86,6 +101,7 @@ def main():
         },
         "engines": [
             {"name": "E1", "path": "harness/src/engine.rs", "serves_properties": sorted(CHECKS), "kind_free_text": "sharded proptest TestRunner (16 shards, fixed seeds from VERIF_SEED), catch_unwind around kiki, automatic shrinking, replay files"},
+            {"name": "E2", "path": "harness/src/e2.rs", "serves_properties": [p for p in ("C01", "C02", "C03", "C05", "C06") if p in CHECKS], "kind_free_text": "emitted text written verbatim, compiled with plain rustc (no cargo, no network) together with a generated client, run under RLIMIT_AS and a watchdog; scratch under /verif/.work removed per case"},
             {"name": "E4", "path": "harness/src/props/total.rs", "serves_properties": [p for p in ("C07", "C14") if p in CHECKS], "kind_free_text": "the verif binary re-executes itself (`verif worker`) to observe aborts / stack overflows and fresh-process hash seeds"},
         ],
         "checks": checks,
